@@ -238,6 +238,8 @@ func paramList(ps []any, rest string) string {
 // render prints an AST as s-expression text (no trailing newline).
 func render(e node, l *layout) string {
 	switch e[0] {
+	case "flt":
+		return e[1].(string) // a float literal, spelled as it is to be read
 	case "int":
 		return strconv.Itoa(asInt(e[1]))
 	case "str":
